@@ -36,14 +36,14 @@ func init() { register("C11", "other", checkC11) }
 //     each case of (operand zero / non-zero), (a < b, a = b, a > b), with the
 //     ring form deciding "a - b is zero": Bool, Not, BoolCond, Eq, Leu.
 //
-// Les is decided relative to Lts (the signed comparison kept as a node).
-// NOT decided: Abs, SignedMul, SignedDiv, SignedMod, SignExtend, RshA, Lts,
-// MaskBits, IntNegative (their meaning depends on sign bits and masks that
+// Decided relative to an inner gadget kept as a node (whose own meaning is not
+// decided): Les on Lts, SignedMul on SignExtend, IntNegative and Abs on the sign
+// mask. NOT decided: SignedDiv, SignedMod, SignExtend, RshA, Lts, MaskBits (their meaning depends on sign bits and masks that
 // vary with the width), and the meaning of the IR operators themselves (C10).
 func checkC11(c *Ctx) {
-	c.Rule("C11.bitwise", "BitNot, BitAnd, BitOr, BitXor, Ones build a term of Nand nodes, all at the gadget's width, over their operands and the constant zero; its truth table per bit is NOT / AND / OR / XOR / constant one")
+	c.Rule("C11.bitwise", "BitNot, BitAnd, BitOr, BitXor, Ones build a term of Nand nodes, all at the gadget's width, over their operands and the constant zero; its truth table per bit is NOT / AND / OR / XOR / constant one; IntNegative, relative to the sign mask (one in the top position), is the operand's top bit and zero elsewhere")
 	c.Rule("C11.ring", "Negate, Sub, NewWidthGadget, Mod build a term whose polynomial normal form over Z/2^(8w) (Add, Mul, full-width complement = -x-1, quotient as an atom) is -a / a-b / a / a - q(a,b)*b, and Mod with divisor 0 (quotient all ones) is a")
-	c.Rule("C11.cases", "Bool, Not, BoolCond, Eq, Leu build selections whose conditions, decided under every case of (operand zero / non-zero) resp. (a<b, a=b, a>b), select the documented result; Les likewise under the signed order, relative to Lts (kept as a node, its own meaning not decided)")
+	c.Rule("C11.cases", "Bool, Not, BoolCond, Eq, Leu build selections whose conditions, decided under every case of (operand zero / non-zero) resp. (a<b, a=b, a>b), select the documented result; Les likewise under the signed order, relative to Lts (kept as a node, its own meaning not decided); Abs, relative to the sign mask, is the operand where its top bit is clear and its negation otherwise")
 
 	tpkg := ModulePath + "/pkg/expr/exprtools"
 	ep := c.Prog.SSAPkg[ExprPkg]
@@ -63,6 +63,10 @@ func checkC11(c *Ctx) {
 	x := &gExtract{c: c, ops: ops, tpkg: tpkg, opaque: map[*ssa.Function]bool{}}
 	if lts := c.Prog.Func(tpkg + ".Lts"); lts != nil {
 		x.opaque[Origin(lts)] = true
+	}
+	x.opaqueMask = map[*ssa.Function]bool{}
+	if sm := c.Prog.Func(tpkg + ".signBitMask"); sm != nil {
+		x.opaqueMask[Origin(sm)] = true
 	}
 	x.opaqueSX = map[*ssa.Function]bool{}
 	if sx := c.Prog.Func(tpkg + ".SignExtend"); sx != nil {
@@ -105,6 +109,8 @@ func checkC11(c *Ctx) {
 		{"BitOr", 2, func(a, b bool) bool { return a || b }, "OR"},
 		{"BitXor", 2, func(a, b bool) bool { return a != b }, "XOR"},
 		{"Ones", 0, func(_, _ bool) bool { return true }, "constant one"},
+		// relative to the sign mask (kept as a node): the operand's top bit, zero elsewhere
+		{"IntNegative", 1, func(a, _ bool) bool { return a }, "the sign bit alone"},
 	} {
 		t, f := term(g.name)
 		if t == nil {
@@ -114,12 +120,18 @@ func checkC11(c *Ctx) {
 		bad := ""
 		for row := 0; row < 1<<uint(g.arity) && bad == ""; row++ {
 			a, b := row&1 == 1, row&2 == 2
-			got, err := t.perBit(map[string]bool{"p0": a, "p1": b}, "w")
-			switch {
-			case err != "":
-				bad = err
-			case got != g.want(a, b):
-				bad = fmt.Sprintf("for operand bits (%v, %v) the result bit is %v, %s gives %v; the term is %s", a, b, got, g.what, g.want(a, b), t)
+			for _, top := range []bool{false, true} { // the top bit position and every other one
+				got, err := t.perBit(map[string]bool{"p0": a, "p1": b}, "w", top)
+				want := g.want(a, b)
+				if g.name == "IntNegative" {
+					want = top && a
+				}
+				switch {
+				case err != "":
+					bad = err
+				case got != want:
+					bad = fmt.Sprintf("for operand bits (%v, %v)%s the result bit is %v, %s gives %v; the term is %s", a, b, map[bool]string{true: " in the top position", false: ""}[top], got, g.what, want, t)
+				}
 			}
 		}
 		c.Oblige("C11.bitwise", "pkg/expr/exprtools."+g.name, c.Prog.FuncPos(f), bad == "", bad)
@@ -185,6 +197,8 @@ func checkC11(c *Ctx) {
 		{"BoolCond", "w", []gcase{{"the condition is zero", zero("p0"), "p2"}, {"the condition is not zero", nonzero("p0"), "p1"}}},
 		{"Eq", "w", []gcase{{"a = b", eq, "p2"}, {"a < b", lt, "p3"}, {"a > b", gtr, "p3"}}},
 		{"Leu", "w", []gcase{{"a = b", eq, "p2"}, {"a < b", lt, "p2"}, {"a > b", gtr, "p3"}}},
+		// relative to the sign mask: the operand where its top bit is clear, its negation otherwise
+		{"Abs", "w", []gcase{{"the top bit is clear", gfacts{msb: map[string]int{"p0": 0}}, "p0"}, {"the top bit is set", gfacts{msb: map[string]int{"p0": 1}}, "poly:" + v("p0").scale(-1).String()}}},
 		// relative to Lts (the signed comparison, kept as a node and not itself decided)
 		{"Les", "w", []gcase{{"a = b", seq, "p2"}, {"a < b (signed)", slt, "p2"}, {"a > b (signed)", sgt, "p3"}}},
 	} {
@@ -226,12 +240,12 @@ func checkC11(c *Ctx) {
 		}
 		c.Oblige("C11.smul", "pkg/expr/exprtools.SignedMul", c.Prog.FuncPos(f), bad == "", bad)
 	}
-	c.RequireCount("C11 gadgets decided", n, 16)
+	c.RequireCount("C11 gadgets decided", n, 18)
 }
 
 func ruleOfGadget(name string) string {
 	switch name {
-	case "BitNot", "BitAnd", "BitOr", "BitXor", "Ones":
+	case "BitNot", "BitAnd", "BitOr", "BitXor", "Ones", "IntNegative":
 		return "C11.bitwise"
 	case "Negate", "Sub", "NewWidthGadget", "Mod":
 		return "C11.ring"
@@ -242,6 +256,9 @@ func ruleOfGadget(name string) string {
 }
 
 func leafName(l string) string {
+	if strings.HasPrefix(l, "poly:") {
+		return "the value " + l[5:]
+	}
 	switch l {
 	case "k0":
 		return "the constant 0"
@@ -282,6 +299,8 @@ func (t *gt) String() string {
 		return fmt.Sprintf("sext(%s, bit %s)@%s", t.a[0], t.a[1], t.w)
 	case "kexpr":
 		return t.name
+	case "topmask":
+		return "signmask@" + t.w
 	}
 	return "?"
 }
@@ -291,8 +310,9 @@ type gExtract struct {
 	ops  map[int64]string
 	tpkg string
 	// selection gadgets kept as nodes when met inside another gadget
-	opaque   map[*ssa.Function]bool
-	opaqueSX map[*ssa.Function]bool
+	opaque     map[*ssa.Function]bool
+	opaqueSX   map[*ssa.Function]bool
+	opaqueMask map[*ssa.Function]bool
 }
 
 // scalarOf spells a Go integer computed from widths: constants, + - *, and
@@ -399,6 +419,9 @@ func (x *gExtract) termOf(v ssa.Value, env map[*ssa.Parameter]*gt, depth int) (*
 				if r.kind == "var" {
 					return &gt{kind: "width", name: "W(" + r.name + ")"}, ""
 				}
+				if r.w != "" && r.kind != "const" {
+					return &gt{kind: "width", name: r.w}, "" // a node has the width it was built with
+				}
 				return nil, "the width of a computed expression is taken"
 			}
 			return nil, "method " + y.Call.Method.Name() + " is called on an expression"
@@ -454,6 +477,13 @@ func (x *gExtract) termOf(v ssa.Value, env map[*ssa.Parameter]*gt, depth int) (*
 				return nil, e
 			}
 			return &gt{kind: "less", a: as, w: w}, ""
+		case PkgPathOf(g) == x.tpkg && x.opaqueMask[Origin(g)] && len(args) == 1:
+			// the mask of the sign bit of a width, kept as a node
+			w, e := width(0)
+			if e != "" {
+				return nil, e
+			}
+			return &gt{kind: "topmask", w: w}, ""
 		case PkgPathOf(g) == x.tpkg && x.opaqueSX[Origin(g)] && len(args) == 3:
 			// sign extension, kept as a node (its own meaning is not decided)
 			v0, e1 := arg(0)
@@ -528,7 +558,7 @@ func firstErr(es ...string) string {
 }
 
 // perBit: the value of one bit of the term, every node being a Nand at width U.
-func (t *gt) perBit(env map[string]bool, U string) (bool, string) {
+func (t *gt) perBit(env map[string]bool, U string, top bool) (bool, string) {
 	switch t.kind {
 	case "var":
 		return env[t.name], ""
@@ -544,9 +574,15 @@ func (t *gt) perBit(env map[string]bool, U string) (bool, string) {
 		if t.w != U {
 			return false, "a node of width " + t.w + " in a gadget of width " + U
 		}
-		a, e1 := t.a[0].perBit(env, U)
-		b, e2 := t.a[1].perBit(env, U)
+		a, e1 := t.a[0].perBit(env, U, top)
+		b, e2 := t.a[1].perBit(env, U, top)
 		return !(a && b), firstErr(e1, e2)
+	case "topmask":
+		// one in the top bit position of the width, zero elsewhere
+		if t.w != U {
+			return false, "a sign mask of width " + t.w + " in a gadget of width " + U
+		}
+		return top, ""
 	}
 	return false, "a selection takes part in a bitwise gadget"
 }
@@ -706,6 +742,7 @@ type gfacts struct {
 	nonzero map[string]bool  // polynomials (spelled) known to be non-zero
 	order   string           // "<", "=", ">" between p0 and p1 (unsigned, at the compare width)
 	sorder  string           // the same for the signed order (cases of a gadget built on the signed comparison)
+	msb     map[string]int   // the top bit of an operand (cases of a gadget built on the sign mask)
 }
 
 // selectLeaf decides every selection of the term under the facts and returns
@@ -732,6 +769,9 @@ func (t *gt) selectLeaf(U string, f gfacts) (string, string) {
 					return "", e
 				}
 			}
+		}
+		if p, err := t.poly(U, f.subst); err == "" {
+			return "poly:" + p.String(), ""
 		}
 		return "", "a computed value (" + t.String() + ") is selected"
 	case "sless":
@@ -764,6 +804,22 @@ func (t *gt) selectLeaf(U string, f gfacts) (string, string) {
 	case "less":
 		if t.w != U {
 			return "", "a comparison at width " + t.w + " in a gadget comparing at width " + U
+		}
+		if t.a[1].kind == "topmask" {
+			// x < signmask exactly when the top bit of x is clear
+			pa, e := t.a[0].poly(U, nil)
+			if e != "" || t.a[1].w != U {
+				return "", firstErr(e, "a sign mask of another width")
+			}
+			for name, bit := range f.msb {
+				if len(pa) == 1 && pa[name] != nil && pa[name].Cmp(big.NewInt(1)) == 0 {
+					if bit == 0 {
+						return t.a[2].selectLeaf(U, f)
+					}
+					return t.a[3].selectLeaf(U, f)
+				}
+			}
+			return "", "a comparison with the sign mask of something else than an operand"
 		}
 		yes, err := decideLess(t.a[0], t.a[1], U, f)
 		if err != "" {
